@@ -23,6 +23,9 @@ VOCAB = ['CREATE', 'TABLE', 'INSERT', 'INTO', 'VALUES', 'ROP', 'REF_ID', 'FROM',
          '"x"', '""', 'I1', '--c\n', '\n', 'true', 'false', '99999999999999999999', '0.0', 'Mc', 'm']
 
 
+COUNTS = {}
+
+
 def tokenize(text):
     return [(m.lastgroup, m.group()) for m in TOKEN.finditer(text)]
 
@@ -50,7 +53,7 @@ def mutate(rng, text, nedits=1):
     for _ in range(nedits):
         if not sig:
             break
-        op = rng.choice(('delete', 'duplicate', 'swap', 'flip', 'flip', 'truncate', 'case', 'insert'))
+        op = rng.choice(('delete', 'duplicate', 'swap', 'flip', 'flip', 'truncate', 'case', 'insert', 'alias'))
         i = rng.choice(sig)
         if op == 'delete':
             toks[i] = ('space', ' ')
@@ -74,6 +77,18 @@ def mutate(rng, text, nedits=1):
             toks[i] = (toks[i][0], ''.join(c.upper() if rng.random() < 0.5 else c.lower() for c in t))
         elif op == 'insert':
             toks.insert(i, ('other', rng.choice(VOCAB) + ' '))
+        elif op == 'alias':
+            # a name becomes another name of the text (same or other letter case): the same attribute / class / column
+            # twice, a reference to another class or attribute
+            idents = [j for j in sig if toks[j][0] == 'ident']
+            if len(idents) >= 2:
+                i = rng.choice(idents)
+                near = [j for j in idents if j != i and abs(j - i) <= 12] or [j for j in idents if j != i]
+                t = toks[rng.choice(near)][1]
+                k = rng.random()
+                t = t if k < 0.3 else t.upper() if k < 0.5 else t.lower() if k < 0.7 else t.swapcase()
+                toks[i] = ('ident', t)
+                COUNTS['Mutant.alias-edit'] = COUNTS.get('Mutant.alias-edit', 0) + 1
         sig = [i for i, (k, _) in enumerate(toks) if k not in ('space',)]
     return untokenize(toks)
 
